@@ -22,6 +22,9 @@ type World struct {
 	B      *drive.Builder
 	Dir    string
 	DBPath string
+	// Cache is the averaging cache of the node that synced the template when it stopped: a run that
+	// restores it continues that node instead of restarting it
+	Cache drive.CacheState
 }
 
 // NewWorld builds the chain with `build` and syncs a template database to its tip.
@@ -46,6 +49,7 @@ func NewWorld(era drive.Era, build func(b *drive.Builder)) (*World, error) {
 			return nil, &WorldError{Out: out}
 		}
 	}
+	w.Cache = d.CacheSnapshot()
 	d.Close()
 	return w, nil
 }
